@@ -1828,4 +1828,186 @@ theorem mpn_powm_val_spec (thr : Nat) (bp ep mp : List Nat) (hep : Norm ep) (hne
     rw [← hc, Nat.mod_eq_of_lt (by omega)]
 
 
+
+/-! ### mpn_rshift (kernel model) and the stripping of the modulus -/
+
+/-- one limb of mpn_rshift: `(x >> cnt) | ((y << (64-cnt)) mod B) = x/2^cnt + 2^(64-cnt)·(y mod 2^cnt)`. -/
+theorem rshift_limb (x y cnt : Nat) (hx : x < B) (hc1 : 1 ≤ cnt) (hc : cnt ≤ 63) :
+    (x >>> cnt) ||| ((y <<< (64 - cnt)) % B) = x / 2 ^ cnt + 2 ^ (64 - cnt) * (y % 2 ^ cnt) := by
+  have hB : B = 2 ^ cnt * 2 ^ (64 - cnt) := B_split cnt (by omega)
+  have h1 : (y <<< (64 - cnt)) % B = (y % 2 ^ cnt) <<< (64 - cnt) := by
+    rw [Nat.shiftLeft_eq, Nat.shiftLeft_eq, hB, Nat.mul_mod_mul_right]
+  have h2 : x >>> cnt < 2 ^ (64 - cnt) := by
+    rw [Nat.shiftRight_eq_div_pow]
+    apply Nat.div_lt_of_lt_mul
+    rw [← hB]; exact hx
+  rw [h1, Nat.or_comm, ← Nat.shiftLeft_add_eq_or_of_lt h2, Nat.shiftLeft_eq, Nat.shiftRight_eq_div_pow]
+  ring
+
+theorem rshiftGo_val (cnt : Nat) (hc1 : 1 ≤ cnt) (hc : cnt ≤ 63) :
+    ∀ (l : List Nat), Limbs l →
+      val (rshiftGo cnt l) = val l / 2 ^ cnt ∧ Limbs (rshiftGo cnt l) ∧ (rshiftGo cnt l).length = l.length
+  | [], _ => by simp [rshiftGo, Limbs_nil]
+  | [x], h => by
+    have hx := (Limbs_cons.mp h).1
+    simp only [rshiftGo, val_cons, val_nil, Nat.mul_zero, Nat.add_zero, List.length_singleton, Nat.shiftRight_eq_div_pow]
+    exact ⟨trivial, Limbs_cons.mpr ⟨lt_of_le_of_lt (Nat.div_le_self _ _) hx, Limbs_nil⟩, trivial⟩
+  | x :: y :: ys, h => by
+    have ⟨hx, hys⟩ := Limbs_cons.mp h
+    have hy := (Limbs_cons.mp hys).1
+    obtain ⟨iv, iL, il⟩ := rshiftGo_val cnt hc1 hc (y :: ys) hys
+    have hB : B = 2 ^ cnt * 2 ^ (64 - cnt) := B_split cnt (by omega)
+    have hpos : 0 < 2 ^ cnt := two_pow_pos _
+    simp only [rshiftGo, val_cons, List.length_cons] at iv il ⊢
+    rw [rshift_limb x y cnt hx hc1 hc]
+    refine ⟨?_, Limbs_cons.mpr ⟨?_, iL⟩, by rw [il]⟩
+    · rw [iv]
+      -- (x + B (y + B v)) / 2^c = x/2^c + 2^(64-c) (y + B v)
+      have e1 : (x + B * (y + B * val ys)) / 2 ^ cnt = x / 2 ^ cnt + 2 ^ (64 - cnt) * (y + B * val ys) := by
+        rw [hB, Nat.mul_assoc, Nat.add_mul_div_left _ _ hpos]
+      have e2 : (y + B * val ys) / 2 ^ cnt = y / 2 ^ cnt + 2 ^ (64 - cnt) * val ys := by
+        rw [hB, Nat.mul_assoc, Nat.add_mul_div_left _ _ hpos]
+      rw [e1, e2]
+      have hy' := Nat.div_add_mod y (2 ^ cnt)
+      generalize y / 2 ^ cnt = yq at *
+      generalize y % 2 ^ cnt = yr at *
+      generalize x / 2 ^ cnt = xq at *
+      rw [← hy', hB]; ring
+    · have h1 : x / 2 ^ cnt < 2 ^ (64 - cnt) := by
+        apply Nat.div_lt_of_lt_mul; rw [← hB]; exact hx
+      have h2 : y % 2 ^ cnt < 2 ^ cnt := Nat.mod_lt _ hpos
+      have h3 : 2 ^ (64 - cnt) * (y % 2 ^ cnt + 1) ≤ 2 ^ (64 - cnt) * 2 ^ cnt := Nat.mul_le_mul_left _ h2
+      rw [hB, Nat.mul_comm (2 ^ cnt)]
+      rw [Nat.mul_add, Nat.mul_one] at h3
+      omega
+
+theorem rshift_val (l : List Nat) (cnt : Nat) (hl : Limbs l) (hc1 : 1 ≤ cnt) (hc : cnt ≤ 63) :
+    val (rshift l cnt).1 = val l / 2 ^ cnt ∧ Limbs (rshift l cnt).1 ∧ (rshift l cnt).1.length = l.length :=
+  rshiftGo_val cnt hc1 hc l hl
+
+
+/-- stripping the low zero limbs: `mp = 0^k ++ rest`, the head of `rest` is non-zero. -/
+theorem strip_zero_limbs (l : List Nat) :
+    val l = B ^ (l.takeWhile (· == 0)).length * val (l.drop (l.takeWhile (· == 0)).length) ∧
+    (l.takeWhile (· == 0)).length ≤ l.length ∧
+    (∀ x xs, l.drop (l.takeWhile (· == 0)).length = x :: xs → x ≠ 0) := by
+  induction l with
+  | nil => simp
+  | cons a l ih =>
+    by_cases ha : a = 0
+    · subst ha
+      obtain ⟨h1, h2, h3⟩ := ih
+      simp only [List.takeWhile_cons, beq_self_eq_true, if_true, List.length_cons, List.drop_succ_cons, val_cons,
+        Nat.zero_add, pow_succ]
+      refine ⟨?_, by omega, h3⟩
+      rw [h1]; ring
+    · have : (a == 0) = false := by simpa using ha
+      simp only [List.takeWhile_cons, this, Bool.false_eq_true, if_false, List.length_nil, List.drop_zero, pow_zero, Nat.one_mul]
+      refine ⟨trivial, Nat.zero_le _, ?_⟩
+      intro x xs h; injection h with h1 _; rw [← h1]; exact ha
+
+/-- powm.c:153-171.  For a modulus in normal form: the odd part `modd = mp'[0..nodd)`, and the number of
+    low zero bits `t = tbits ncnt cnt` when `ncnt ≠ 0`. -/
+theorem stripM_spec (mp : List Nat) (hm : Norm mp) (hne : mp ≠ []) :
+    let modd := (stripM mp).1.take (stripM mp).2.1
+    let nodd := (stripM mp).2.1
+    let ncnt := (stripM mp).2.2.1
+    let cnt := (stripM mp).2.2.2
+    Limbs modd ∧ modd.length = nodd ∧ 1 ≤ nodd ∧ val modd % 2 = 1 ∧ cnt < 64 ∧ nodd ≤ mp.length ∧
+    mp.length ≤ nodd + ncnt ∧ ncnt ≤ mp.length ∧
+    (ncnt = 0 → val modd = val mp) ∧ (ncnt ≠ 0 → val mp = 2 ^ tbits ncnt cnt * val modd) := by
+  obtain ⟨hz1, hz2, hz3⟩ := strip_zero_limbs mp
+  have hmpos := Norm_pos mp hm hne
+  unfold stripM
+  simp only
+  generalize hk : (mp.takeWhile (· == 0)).length = k at *
+  -- the rest is non-empty with non-zero head
+  have hrest : mp.drop k ≠ [] := by
+    intro h; rw [h] at hz1; simp at hz1; omega
+  obtain ⟨m0, rest, hmr⟩ := List.exists_cons_of_ne_nil hrest
+  have hm0 : m0 ≠ 0 := hz3 m0 rest hmr
+  have hdL : Limbs (mp.drop k) := Limbs_drop hm.1 _
+  have hm0lt : m0 < B := by rw [hmr] at hdL; exact (Limbs_cons.mp hdL).1
+  have hdlen : (mp.drop k).length = mp.length - k := List.length_drop
+  have hklt : k < mp.length := by
+    have : 0 < (mp.drop k).length := List.length_pos_of_ne_nil hrest
+    omega
+  have hhead : (mp.drop k).headD 1 = m0 := by rw [hmr]; rfl
+  rw [hhead]
+  by_cases hev : m0 % 2 = 0
+  · simp only [hev, if_true]
+    obtain ⟨hc1, hc2⟩ := ctz_spec m0 hm0 (by rw [← B_eq_two_pow]; exact hm0lt)
+    have hcpos : 1 ≤ ctz m0 := by
+      by_contra h0
+      have : ctz m0 = 0 := by omega
+      rw [this] at hc1 hc2; simp at hc1 hc2; omega
+    have hc63 : ctz m0 ≤ 63 := by
+      by_contra hge
+      have h1 : 2 ^ 64 ≤ 2 ^ ctz m0 := Nat.pow_le_pow_right (by decide) (by omega)
+      have hq : 0 < m0 >>> ctz m0 := by
+        rcases Nat.eq_zero_or_pos (m0 >>> ctz m0) with h | h
+        · rw [h] at hc2; simp at hc2
+        · exact h
+      have h2 : 2 ^ ctz m0 ≤ 2 ^ ctz m0 * (m0 >>> ctz m0) := Nat.le_mul_of_pos_right _ hq
+      rw [B_eq_two_pow] at hm0lt
+      generalize 2 ^ ctz m0 * (m0 >>> ctz m0) = prod at *
+      omega
+    generalize ctz m0 = cnt at *
+    obtain ⟨rv, rL, rl⟩ := rshift_val (mp.drop k) cnt hdL hcpos hc63
+    generalize (rshift (mp.drop k) cnt).1 = newmp at *
+    rw [hdlen] at rl
+    -- val newmp is odd
+    have hpos : 0 < 2 ^ cnt := two_pow_pos _
+    have hB : B = 2 ^ cnt * 2 ^ (64 - cnt) := B_split cnt (by omega)
+    have hnv : val newmp = (m0 >>> cnt) + 2 ^ (64 - cnt) * val rest := by
+      rw [rv, hmr, val_cons, hB, Nat.mul_assoc, Nat.add_mul_div_left _ _ hpos, Nat.shiftRight_eq_div_pow]
+    have hnodd : val newmp % 2 = 1 := by
+      have : 2 ^ (64 - cnt) = 2 * 2 ^ (63 - cnt) := by rw [← pow_succ']; congr 1; omega
+      rw [hnv, this, Nat.mul_assoc, Nat.add_mul_mod_self_left]; exact hc2
+    have hdiv : val (mp.drop k) = 2 ^ cnt * val newmp := by
+      rw [hnv, hmr, val_cons, Nat.mul_add, ← hc1, ← Nat.mul_assoc, ← hB]
+    -- dropping a zero top limb does not change the value
+    set nodd0 := mp.length - k with hnodd0
+    have htake : val (newmp.take (nodd0 - (if newmp.getD (nodd0 - 1) 0 = 0 then 1 else 0))) = val newmp := by
+      split
+      · rename_i h0
+        have h1 := val_take_succ newmp (nodd0 - 1)
+        have e : nodd0 - 1 + 1 = nodd0 := by omega
+        rw [e, h0, Nat.mul_zero, Nat.add_zero, take_length_eq newmp nodd0 rl] at h1
+        exact h1.symm
+      · simp only [Nat.sub_zero]; rw [take_length_eq newmp nodd0 rl]
+    have hnz : newmp.getD (nodd0 - 1) 0 = 0 → 2 ≤ nodd0 := by
+      intro h0
+      by_contra hlt
+      have h1 : nodd0 = 1 := by omega
+      rw [h1] at h0
+      -- newmp[0] = val newmp % B is odd
+      have : newmp.getD 0 0 = newmp.headD 0 := by cases newmp <;> rfl
+      rw [this] at h0
+      have := val_mod_two newmp
+      rw [h0] at this; omega
+    refine ⟨Limbs_take rL _, ?_, ?_, by rw [htake]; exact hnodd, by omega, ?_, ?_, by omega, by omega, ?_⟩
+    · rw [List.length_take, rl]; split <;> omega
+    · split
+      · rename_i h0; have := hnz h0; omega
+      · omega
+    · split <;> omega
+    · split <;> omega
+    · intro _
+      rw [htake, hz1, hdiv, tbits_eq]
+      have hc0 : cnt ≠ 0 := by omega
+      simp only [hc0, if_false, Nat.add_sub_cancel]
+      rw [B_eq_two_pow, ← pow_mul, pow_add, Nat.mul_comm 64 k]; ring
+  · simp only [hev, if_false]
+    have hodd : m0 % 2 = 1 := by omega
+    have htake : (mp.drop k).take (mp.length - k) = mp.drop k := take_length_eq _ _ hdlen
+    rw [htake]
+    have hvodd : val (mp.drop k) % 2 = 1 := by rw [val_mod_two, hmr]; exact hodd
+    refine ⟨hdL, hdlen, by omega, hvodd, by omega, by omega, by omega, by omega, ?_, ?_⟩
+    · intro h0; subst h0; rfl
+    · intro _
+      rw [hz1, tbits_eq]; simp only [if_true]
+      rw [B_eq_two_pow, ← pow_mul, Nat.mul_comm 64 k]
+
+
 end Mpir.Powm
